@@ -250,11 +250,13 @@ def second_session(ctx, rng, world, scen, min_triple):
     board.out.clear()
     step = {"m": "connect", "a": [], "faults": []}
     if kind == "older firmware":
-        board.version = rng.choice(["2.8.1", "3.0.1", "3.0.0", "2.10.0", "2.99.99", "1.0.0"])
+        lower = [v for v in ("2.8.1", "3.0.1", "3.0.0", "2.10.0", "2.99.99", "1.0.0") if triple(v) < min_triple]
+        board.version = rng.choice(lower or ["0.0.1"])
     elif kind == "non-EBB":
         board.product = rng.choice(NON_EBB) + " "
     elif kind == "supported again":
-        board.version = rng.choice(["3.0.2", "3.0.10", "4.0.0"])
+        board.version = rng.choice([vstr(min_triple), vstr((min_triple[0], min_triple[1], min_triple[2] + 8)),
+                                    vstr((min_triple[0] + 1, 0, 0))])
     else:
         text = rng.choice(HALF_EBB)
         step["reply"] = {"0": text + "\r\n", "1": text + "\r\n"}
